@@ -939,6 +939,11 @@ def splunk_render_cases(ctx, thorough):
 
 
 def splunk_part(ctx, thorough):
+    if thorough:
+        from vf import apalache
+
+        apalache.inductive(ctx, "SplunkCount", "unbounded: counter abstraction of the HTTP transport, every body limit >= 1, every history")
+        apalache.inductive(ctx, "SplitCount", "unbounded: counter abstraction of splitting by count, every limit >= 1, every number of records")
     ctx.design("Splunk", "MC_Splunk.cfg", "exhaustive: tcp / http transport, body limit 3, <=9 calls, collector errors anywhere; field-name escaping over 54 names",
                actions=("Write", "Flush", "Close"), workers=4)
     ctx.sensitivity("Splunk", "MC_Splunk_dev_CloseNoFlush.cfg", "close without a final POST must violate Delivered", "Delivered", workers=2)
